@@ -27,6 +27,16 @@ MUTATIONS = [
     ("C09", "duplicate-overwrites", "tensor.py", "            node[key] = node.get(key, 0.0) + payload", "            node[key] = payload", 1),
     ("C09", "from_aos-reversed-ordering", "tensor.py", "            tuple(coordinate[i] for i in format.ordering) for coordinate in coordinates", "            tuple(coordinate[i] for i in reversed(format.ordering)) for coordinate in coordinates", 1),
     ("C09", "pickle-drops-ordering", "tensor.py", '            "mode_ordering": self.format.ordering,', '            "mode_ordering": tuple(range(self.order)),', 1),
+    ("C10", "sizes-1-2", "compile/_tensor_method.py", "for _, _, size in actual_sizes[1:]:", "for _, _, size in actual_sizes[1:2]:", 1),
+    ("C10", "modes-test-removed", "compile/_tensor_method.py", "            if tuple(argument.modes) != tuple(format.modes):", "            if False:", 1),
+    ("C10", "ordering-test-removed", "compile/_tensor_method.py", "            if tuple(argument.mode_ordering) != tuple(format.ordering):", "            if False:", 1),
+    ("C10", "evaluate-no-isinstance", "compile/_porcelain.py", "        if not isinstance(tensor, Tensor):\n            raise TypeError(f\"Argument {name} must be a Tensor not {type(tensor)}\")\n    input_formats = {name: tensor.format for name, tensor in inputs.items()}\n    parsed_output_format = parse_format(output_format).alt(raise_exception).unwrap()\n\n    formats = {parsed_assignment.target.name: parsed_output_format} | input_formats\n\n    problem = make_problem(parsed_assignment, formats).alt(raise_exception).unwrap()\n\n    function = cachable_tensor_method(problem, BackendCompiler.llvm)", "        pass\n    input_formats = {name: tensor.format for name, tensor in inputs.items()}\n    parsed_output_format = parse_format(output_format).alt(raise_exception).unwrap()\n\n    formats = {parsed_assignment.target.name: parsed_output_format} | input_formats\n\n    problem = make_problem(parsed_assignment, formats).alt(raise_exception).unwrap()\n\n    function = cachable_tensor_method(problem, BackendCompiler.llvm)", 1),
+    ("C12", "subtract-right-no-parens", "expression/ast.py", "        if isinstance(self.right, (Add, Subtract)):\n            right_string = f\"({right_string})\"\n\n        return left_string + \" - \" + right_string", "        if isinstance(self.right, (Add,)):\n            right_string = f\"({right_string})\"\n\n        return left_string + \" - \" + right_string", 1),
+    ("C12", "fold-right", "expression/_parser.py", "                value = Subtract(value, term)", "                value = Subtract(term, value)", 1),
+    ("C12", "name-conflict-test-removed", "expression/ast.py", "        if len(conflicted_names) > 0:", "        if False:", 1),
+    ("C12", "multiply-left-no-parens", "expression/ast.py", "        if isinstance(self.left, (Add, Subtract)):\n            left_string = f\"({left_string})\"", "        if isinstance(self.left, (Add,)):\n            left_string = f\"({left_string})\"", 1),
+    ("C12", "format-ordering-off", "format/_format.py", "mode.character + str(ordering)", "mode.character + str(ordering + 0 * len(self.modes))", 0),
+    ("C12", "format-deparse-drops-ordering", "format/_format.py", "        if self.ordering == tuple(range(self.order)):", "        if self.ordering[:1] == tuple(range(self.order))[:1]:", 1),
     ("C07", "harmless-rename-locals", "ir/_peephole.py", "    condition = peephole_expression(self.condition)\n    body = peephole_statement(self.body)\n\n    if condition == BooleanLiteral(False):\n        return Block([])\n    elif isinstance(self.body, Block) and self.body.is_empty():\n        return Block([])\n    else:\n        return Loop(condition, body)",
      "    new_body = peephole_statement(self.body)\n    cond = peephole_expression(self.condition)\n\n    if isinstance(self.body, Block) and self.body.is_empty():\n        return Block([])\n    if cond == BooleanLiteral(False):\n        return Block([])\n    return Loop(cond, new_body)", 0),
 ]
